@@ -170,6 +170,7 @@ struct Extractor {
   std::string varId(const VarDecl *VD) {
     if (VD->isLocalVarDeclOrParm() && !VD->isStaticLocal())
       return bare(VD) + "@" + std::to_string(lineOf(VD->getLocation())) + ":" + std::to_string(colOf(VD->getLocation()));
+    if (isa<VarTemplateSpecializationDecl>(VD)) return diagName(VD);
     return qual(VD);
   }
 
